@@ -460,6 +460,21 @@ def lemma_sum_mono(ctx, lo, hi, name="sum_mono"):
     ctx.assume(lo.sym <= hi.sym)
 
 
+def lemma_sum_mono_dom(ctx, small, big, name="sum_mono_dom", guard=None):
+    """Σ_A f <= Σ_B f  when A is contained in B and f >= 0 on B (the same summand on A); `guard`: a condition on the
+    parameters only, under which the inclusion holds and the conclusion is used"""
+    _use("sum_mono_dom")
+    if small.space is not big.space:
+        raise Undecided("sum_mono_dom over different spaces")
+    g = guard if guard is not None else z3.BoolVal(True)
+    if _mentions(g, small.space.u):
+        raise Undecided("sum_mono_dom: the guard mentions the summation index")
+    f = z3.And(*small.space.facts())
+    ctx.oblige(name + "/side.inclusion", z3.Implies(z3.And(g, f, small.dom), z3.And(big.dom, small.summand == big.summand)), kind="lemma-side")
+    ctx.oblige(name + "/side.nonneg", z3.Implies(z3.And(g, f, big.dom), big.summand >= 0), kind="lemma-side")
+    ctx.assume(z3.Implies(g, small.sym <= big.sym))
+
+
 def lemma_sum_bound(ctx, d, n_term, lo=None, hi=None, name="sum_bound"):
     """n*lo <= Σ_A f <= n*hi when lo <= f <= hi pointwise and |A| = n (lo, hi constant along the axis)."""
     _use("sum_mono (against a constant)")
